@@ -169,6 +169,10 @@ def obligations(tier):
                     o = c11.boundary_ob(cond, time, dx, 1, 2, facet)
                     o.name = o.name.replace("C11/", "C04/").replace("grid_entry_equals_pointwise", "ensures.grid")
                     obs.append(o)
+                    if facet == 2 * dx - 1:         # several outputs, a selection of two components
+                        o = c11.boundary_ob(cond, time, dx, 1, 2, facet, m=3, sel=jnp.s_[1:3])
+                        o.name = o.name.replace("C11/", "C04/").replace("grid_entry_equals_pointwise", "ensures.grid")
+                        obs.append(o)
     # the boundary term inside a system loss is the per-unknown boundary term built with that unknown's own condition,
     # function and component selection (C13 contract, reported under C04)
     from contracts import c13
